@@ -12,8 +12,11 @@ type Pool struct {
 	cancel context.CancelFunc
 
 	// lifeM serialises Run and Stop: runM only says whether the pool is running.
-	lifeM     sync.Mutex
-	runM      sync.Mutex
+	lifeM sync.Mutex
+	runM  sync.Mutex
+	// sendM orders Send's registration in sendWg against Stop's cancellation:
+	// after Stop has cancelled under the write lock no Send registers any more.
+	sendM     sync.RWMutex
 	lazySendM sync.Mutex
 	listM     sync.Mutex
 
